@@ -115,7 +115,7 @@ fn generated_case(ctx: &Ctx, ch: &mut Ch) -> Outcome {
 /// Groups around the boundary of the definition-order rule: 2-4 annotated int / int -> int
 /// definitions, a third of them functions, half of the others not syntactic values, which freely
 /// mention earlier, later and nested definitions; nested in definitions and function bodies.
-fn order_group(ch: &mut Ch, depth: usize, outer: &[(String, bool)], counter: &mut usize) -> String {
+pub fn order_group(ch: &mut Ch, depth: usize, outer: &[(String, bool)], counter: &mut usize) -> String {
     let n = 2 + ch.pick(3);
     let names: Vec<(String, bool)> = (0..n)
         .map(|_| {
